@@ -136,6 +136,17 @@ def judge(ctx, status: str) -> list[dict]:
         stop_ev = getattr(rc, "stop_event", None)
     if stop_ev is not None and getattr(stop_ev, "_sim_set_seq", None) is not None:
         stop_seq = stop_ev._sim_set_seq
+    cc = ctx.ctrl_c_fired
+    if cc is not None and cc.get("first_wait_after") is not None:
+        # an interrupt is a stop request: the interrupted consumer has to raise the stop flag before it waits for anybody
+        # (a join on workers that were never told to stop lets them finish the whole phase)
+        fw = cc["first_wait_after"]
+        if stop_seq is None or stop_seq > fw["seq"]:
+            upto = stop_seq if stop_seq is not None else float("inf")
+            sent = sum(1 for r in wire if cc["seq"] < r.seq < upto and r.phase in ("examples", "coverage", "fuzzing", "stateful"))
+            v("R4", f"after Ctrl-C (received by {cc.get('handler')}) the consumer went into {fw['kind']} before the stop flag was "
+                    f"{'set' if stop_seq is not None else 'ever set'}; {sent} test request(s) were sent between the interrupt and the stop flag",
+              what="waited_before_stop", handler=str(cc.get("handler")), wait=fw["kind"], requests_in_between=sent > int(cfg.get("workers", 1)))
     if stop_seq is not None:
         # "no new scenario is started": a ScenarioStarted *created* after the stop instant. A worker that passed its
         # stop check just before the instant may still announce one (benign check-then-act): one per thread allowed.
